@@ -1,4 +1,5 @@
 From Coq Require Import Extraction ExtrOcamlBasic.
-From SV Require Import Model.Mailbox Model.C05Run.
+From SV Require Import Model.Mailbox Model.MailboxDivider Model.C05Run.
 Extraction Language OCaml.
-Extraction "model.ml" init step run trace obs run_obs run_detail enabled all_terminal.
+Extraction "model.ml" init step run trace obs run_obs run_detail enabled all_terminal
+  dinit dstep dtrace dobs drun_obs denabled d_all_terminal.
